@@ -298,7 +298,7 @@ _add(
          "bounding functions check the routing; plus linear homeostasis on weight / bias / delay with plasticity of both "
          "signs and observed rates above and below target (direction of the applied change). One evaluation = one "
          "trainer step judged; distinct = (trainer, cell type, sign mode, reduction, reward kind, delay mode, ...).",
-    required=["parts_checked", "trainer_steps_checked", "routing_steps_checked", "homeostasis_steps_checked", "three_factor_steps_with_negative_scale.tensor_signal", "three_factor_steps_with_negative_scale.scalar_signal"],
+    required=["parts_checked", "trainer_steps_checked", "routing_steps_checked", "homeostasis_steps_checked", "three_factor_steps_with_negative_scale.tensor_signal", "three_factor_steps_with_negative_scale.scalar_signal", "routing_cases_with_a_half_bound_removed"],
     floor={"quick": 60, "thorough": 200},
     text="Held on every history explored (apart from the listed findings): every tensor a real trainer assigns to an "
          "Accumulator is checked to be element-wise non-negative at the moment of assignment, potentiation minus "
